@@ -35,7 +35,10 @@ SPEC = dict(
          "-large <= 400 monomials in the result); fatom = opaque f(x), g(x,y), sin(x+t) atoms; laurent = negative "
          "powers of atoms; ratfun = negative powers of sums (shared sub-terms); cancel/cancel-negpow = powers of sums "
          "that collapse to a monomial or a number when expanded; radical = rational powers of sums (D9 family, Lean "
-         "answers SKIP, oracles only); pair-equal / pair-perturbed = identity decision; multinomial; fixed* = "
+         "answers SKIP, oracles only); radprod / radprod-in-sum = products of symbols with radicals or symbolic powers "
+         "whose bases contain products / integer powers of sums, paired with the same product over the bases expanded by "
+         "the harness (op rpair: eq of the two expansions, completeness inside the bases, idempotence, numeric value; "
+         "Lean SKIP); pair-equal / pair-perturbed = identity decision; multinomial; fixed* = "
          "test_arit shapes and the minimal inputs of the defects. impl_stats: dict_judged, dict_terms_total, "
          "value_points_judged, numeric_points_judged, pair_equal_polynomials, pair_different_polynomials.",
     not_covered=[
